@@ -90,6 +90,19 @@ return 1
 			NParams: map[string]int{"§_F0": 0, "¶_unused": 1},
 		},
 		{
+			Kind: "corpus", Key: "debug-single-instr-method",
+			Note: "a compiled function that consists of a single RET has Range.Start == Range.End and is dropped from debug info and manifest",
+			Plain: `func §_Nop() {
+}
+func §_F0() int {
+§_Nop()
+return 1
+}
+`,
+			Entries: []*Entry{{Name: "§_F0", Ret: KInt, Tuples: [][]int64{{}}}},
+			NParams: map[string]int{"§_F0": 0, "§_Nop": 0},
+		},
+		{
 			Kind: "corpus", Key: "recover-stale-stack",
 			Note: "a panic recovered by a deferred call while operands are on the evaluation stack leaves them there",
 			Plain: `func ¶_rec() {
